@@ -107,8 +107,17 @@ def run(ck):
             direct_failed.add(c["id"])
     for c in kfw:
         x = impl[c["id"]]
-        if ("(load ok)" in x and "(fromvalue err)" in x) or ("(load err)" in x and "(fromvalue ok)" in x):
+        cls = int(c["_e"].get("classifier", "0"))
+        if cls == 40:
+            still = "(load ok)" in x and "(reload ser_err)" in x
+        elif cls == 41:
+            still = "(load ok)" in x and ("(reload err)" in x or "(examples 0)" in x)
+        else:
+            still = ("(load ok)" in x and "(fromvalue err)" in x) or ("(load err)" in x and "(fromvalue ok)" in x)
+        if still:
             ck.known(c["_e"].get("id"), c["_e"]["what"])
+        else:
+            ck.count("known_witness_no_longer_fails:" + str(c["_e"].get("id")))
     ck.coverage["evaluations"] = evals
     ck.coverage["distinct_nontrivial"] = len(nontrivial)
     ck.coverage["rule"] = (
